@@ -528,10 +528,47 @@ def _yields_end_loop_bodies(fn: ast.FunctionDef) -> bool:
     return ok[0] and n_y[0] > 0
 
 
+def _single_tail_loop(fn: ast.FunctionDef) -> bool:
+    """The generator yields from one loop only, and that loop is the last thing it does (reached through if / with
+    statements that are themselves last): leaving that loop with `break` ends the generator, which is what `break` in
+    the consumer's loop means."""
+    ys = [n for n in ast.walk(fn) if isinstance(n, (ast.Yield, ast.YieldFrom))]
+    if not ys:
+        return False
+    body = _body(fn)
+    while True:
+        if not body:
+            return False
+        last = body[-1]
+        if any(isinstance(n, (ast.Yield, ast.YieldFrom)) for st in body[:-1] for n in ast.walk(st)):
+            return False
+        if isinstance(last, ast.With):
+            body = last.body
+        elif isinstance(last, ast.If):
+            in_b = any(isinstance(n, (ast.Yield, ast.YieldFrom)) for st in last.body for n in ast.walk(st))
+            in_o = any(isinstance(n, (ast.Yield, ast.YieldFrom)) for st in last.orelse for n in ast.walk(st))
+            if in_b == in_o:
+                return False
+            body = last.body if in_b else last.orelse
+        elif isinstance(last, (ast.For, ast.While)):
+            if last.orelse:
+                return False
+            # no yield inside a nested loop
+            for st in last.body:
+                for n in ast.walk(st):
+                    if isinstance(n, (ast.For, ast.While)) and any(isinstance(y, (ast.Yield, ast.YieldFrom)) for y in ast.walk(n)):
+                        return False
+            return True
+        else:
+            return False
+
+
 def inline_generator_loop(site: "Site", loop: ast.For) -> list[ast.stmt]:
     if loop.orelse:
         raise CannotInline("for/else over a generator")
     for n in _own_walk_stmts(loop.body):
+        if isinstance(n, ast.Break) and _single_tail_loop(site.callee):
+            continue
         if isinstance(n, (ast.Break, ast.Return)):
             raise CannotInline("loop body leaves the loop early")
         if isinstance(n, ast.Continue) and not _yields_end_loop_bodies(site.callee):
